@@ -792,6 +792,17 @@ func (w *world) buildAdmin(n *simNode, op string) (Task, bool) {
 		return 0
 	}
 	switch parts[0] {
+	case "bootstrap": // bootstrap the cluster from a node that has only its identity
+		if r.configs.IsBootstrapped() {
+			return nil, false
+		}
+		c := Config{Nodes: map[uint64]Node{}}
+		for _, nd := range w.nodes {
+			if err := c.AddVoter(nd.id, nd.addr); err != nil {
+				return nil, false
+			}
+		}
+		return ChangeConfig(c), true
 	case "add": // add:<id>[:promote]
 		id := arg(1)
 		if _, ok := cfg.Nodes[id]; ok || id == 0 || int(id) > len(w.nodes) {
